@@ -160,6 +160,16 @@ theorem ioNodes_spec (nt : List (Trait W)) (t0 : Option Int) (ns acc res : List 
 
 /-! ### the invariant of the child under construction -/
 
+/-- provenance of a child gene: its number is a parent gene's number, and source, target and recurrence flag are those
+    of parent genes carrying that number (one parent gene for the copying choices, possibly different ones when averaging) -/
+def Prov (p1 p2 : Genome W) (x : Gene W) : Prop :=
+  ∃ y1 y2 y3 : Gene W, (y1 ∈ p1.genes ∨ y1 ∈ p2.genes) ∧ (y2 ∈ p1.genes ∨ y2 ∈ p2.genes) ∧ (y3 ∈ p1.genes ∨ y3 ∈ p2.genes) ∧
+    y1.inn = x.inn ∧ y2.inn = x.inn ∧ y3.inn = x.inn ∧ x.src = y1.src ∧ x.dst = y2.dst ∧ x.recur = y3.recur
+
+omit [Scalar W] in
+theorem Prov.of_parent {p1 p2 : Genome W} {x : Gene W} (h : x ∈ p1.genes ∨ x ∈ p2.genes) : Prov p1 p2 x :=
+  ⟨x, x, x, h, h, h, rfl, rfl, rfl, rfl, rfl, rfl⟩
+
 structure AccInv (p1 p2 : Genome W) (nt : List (Trait W)) (acc : MateAcc W) : Prop where
   nodesSorted : NodesSorted acc.nodes
   nodesFrom : ∀ m ∈ acc.nodes, FromParents p1 p2 m
@@ -169,6 +179,7 @@ structure AccInv (p1 p2 : Genome W) (nt : List (Trait W)) (acc : MateAcc W) : Pr
   geneTraits : ∀ x ∈ acc.genes, RefIn nt x.trait
   dstFrom : ∀ x ∈ acc.genes, ∃ y, (y ∈ p1.genes ∨ y ∈ p2.genes) ∧ y.dst = x.dst
   io : ∀ n ∈ p2.nodes, n.kind ≠ Kind.hidden → ∃ m ∈ acc.nodes, m.id = n.id ∧ m.kind = n.kind
+  prov : ∀ x ∈ acc.genes, Prov p1 p2 x
 
 /-- a chosen gene comes with endpoint node objects of a parent that carry the gene's endpoint ids, and its target is
     the target of a parent's gene -/
@@ -176,6 +187,7 @@ structure Legit (p1 p2 : Genome W) (c : Chosen W) : Prop where
   src : ∀ sn, c.srcN = some sn → sn.id = c.gene.src ∧ (sn ∈ p1.nodes ∨ sn ∈ p2.nodes)
   dst : ∀ dn, c.dstN = some dn → dn.id = c.gene.dst ∧ (dn ∈ p1.nodes ∨ dn ∈ p2.nodes)
   dstFrom : ∃ y, (y ∈ p1.genes ∨ y ∈ p2.genes) ∧ y.dst = c.gene.dst
+  prov : Prov p1 p2 c.gene
 
 omit [Scalar W] in
 theorem nodeById_some (nodes : List Node) (id : Int) (n : Node) (h : nodeById nodes id = some n) :
@@ -188,15 +200,34 @@ theorem nodeById_some (nodes : List Node) (id : Int) (n : Node) (h : nodeById no
 omit [Scalar W] in
 theorem legit_chooseFrom_left (p1 p2 : Genome W) (x : Gene W) (hx : x ∈ p1.genes) : Legit p1 p2 (chooseFrom p1 x) :=
   ⟨fun sn h => ⟨(nodeById_some _ _ _ h).1, Or.inl (nodeById_some _ _ _ h).2⟩,
-   fun dn h => ⟨(nodeById_some _ _ _ h).1, Or.inl (nodeById_some _ _ _ h).2⟩, ⟨x, Or.inl hx, rfl⟩⟩
+   fun dn h => ⟨(nodeById_some _ _ _ h).1, Or.inl (nodeById_some _ _ _ h).2⟩, ⟨x, Or.inl hx, rfl⟩,
+   Prov.of_parent (Or.inl hx)⟩
 
 omit [Scalar W] in
 theorem legit_chooseFrom_right (p1 p2 : Genome W) (y : Gene W) (hy : y ∈ p2.genes) : Legit p1 p2 (chooseFrom p2 y) :=
   ⟨fun sn h => ⟨(nodeById_some _ _ _ h).1, Or.inr (nodeById_some _ _ _ h).2⟩,
-   fun dn h => ⟨(nodeById_some _ _ _ h).1, Or.inr (nodeById_some _ _ _ h).2⟩, ⟨y, Or.inr hy, rfl⟩⟩
+   fun dn h => ⟨(nodeById_some _ _ _ h).1, Or.inr (nodeById_some _ _ _ h).2⟩, ⟨y, Or.inr hy, rfl⟩,
+   Prov.of_parent (Or.inr hy)⟩
 
-theorem legit_avgChosen (p1 p2 : Genome W) (x y : Gene W) (hx : x ∈ p1.genes) (hy : y ∈ p2.genes) (c : Chosen W)
-    (rs rs' : List Nat) (h : avgChosen p1 p2 x y rs = .ok (c, rs')) : Legit p1 p2 c ∧ c.gene.inn = x.inn := by
+omit [Scalar W] in
+theorem prov_avg (p1 p2 : Genome W) (x y : Gene W) (hx : x ∈ p1.genes) (hy : y ∈ p2.genes) (heq : x.inn = y.inn)
+    (b1 b2 b3 : Bool) (g' : Gene W) (hi : g'.inn = x.inn) (hs : g'.src = if b1 then x.src else y.src)
+    (hd : g'.dst = if b2 then x.dst else y.dst) (hr : g'.recur = if b3 then x.recur else y.recur) : Prov p1 p2 g' := by
+  have pick : ∀ (b : Bool), ∃ z : Gene W, (z ∈ p1.genes ∨ z ∈ p2.genes) ∧ z.inn = x.inn ∧
+      z.src = (if b then x.src else y.src) ∧ z.dst = (if b then x.dst else y.dst) ∧
+      z.recur = (if b then x.recur else y.recur) := by
+    intro b
+    cases b
+    · exact ⟨y, Or.inr hy, heq.symm, rfl, rfl, rfl⟩
+    · exact ⟨x, Or.inl hx, rfl, rfl, rfl, rfl⟩
+  obtain ⟨z1, m1, i1, s1, _, _⟩ := pick b1
+  obtain ⟨z2, m2, i2, _, d2, _⟩ := pick b2
+  obtain ⟨z3, m3, i3, _, _, r3⟩ := pick b3
+  exact ⟨z1, z2, z3, m1, m2, m3, by rw [i1, hi], by rw [i2, hi], by rw [i3, hi], by rw [hs, s1], by rw [hd, d2], by rw [hr, r3]⟩
+
+theorem legit_avgChosen (p1 p2 : Genome W) (x y : Gene W) (hx : x ∈ p1.genes) (hy : y ∈ p2.genes) (heq : x.inn = y.inn)
+    (c : Chosen W) (rs rs' : List Nat) (h : avgChosen p1 p2 x y rs = .ok (c, rs')) :
+    Legit p1 p2 c ∧ c.gene.inn = x.inn := by
   unfold avgChosen at h
   split at h
   · cases h
@@ -210,7 +241,7 @@ theorem legit_avgChosen (p1 p2 : Genome W) (x y : Gene W) (hx : x ∈ p1.genes) 
           · cases h
           · simp only [Except.ok.injEq, Prod.mk.injEq] at h
             obtain ⟨rfl, _⟩ := h
-            refine ⟨⟨?_, ?_, ?_⟩, rfl⟩
+            refine ⟨⟨?_, ?_, ?_, ?_⟩, rfl⟩
             · intro sn hsn
               simp only at hsn ⊢
               split at hsn
@@ -229,6 +260,7 @@ theorem legit_avgChosen (p1 p2 : Genome W) (x y : Gene W) (hx : x ∈ p1.genes) 
               split
               · exact ⟨x, Or.inl hx, rfl⟩
               · exact ⟨y, Or.inr hy, rfl⟩
+            · exact prov_avg p1 p2 x y hx hy heq _ _ _ _ rfl rfl rfl rfl
 
 /-- **"add the chosen gene to the baby" preserves the invariant**; the gene list is unchanged (same-link conflict)
     or extended at the end by a gene with the chosen innovation number; it is extended when it was empty. -/
@@ -266,7 +298,7 @@ theorem addChosen_inv (p1 p2 : Genome W) (nt : List (Trait W)) (t0 : Option Int)
               exact List.mem_map.mpr ⟨m, hsub m hm, e⟩
             have hsrc := hc.src sn hsn
             have hdst := hc.dst dn hdn
-            refine ⟨⟨s2, ?_, ?_, ?_, ?_, ?_, ?_, ?_⟩, Or.inr ⟨_, rfl, rfl⟩, fun _ => by simp⟩
+            refine ⟨⟨s2, ?_, ?_, ?_, ?_, ?_, ?_, ?_, ?_⟩, Or.inr ⟨_, rfl, rfl⟩, fun _ => by simp⟩
             · intro m hm
               rcases from2 m hm with h' | ⟨e1, e2, _⟩
               · rcases from1 m h' with h'' | ⟨e1, e2, _⟩
@@ -316,6 +348,12 @@ theorem addChosen_inv (p1 p2 : Genome W) (nt : List (Trait W)) (t0 : Option Int)
             · intro n hn hk
               obtain ⟨m, hm, e⟩ := hinv.io n hn hk
               exact ⟨m, hsub m hm, e⟩
+            · intro x hx
+              rcases List.mem_append.mp hx with hx' | hx'
+              · exact hinv.prov x hx'
+              · simp only [List.mem_singleton] at hx'
+                subst hx'
+                exact hc.prov
     · cases h
 
 /-! ### the common prologue -/
@@ -345,7 +383,7 @@ theorem matePrologue_spec (g og : Genome W) (nt : List (Trait W)) (t0 : Option I
             rw [← e]; exact hw1.tnz t ht
           obtain ⟨r1, _, r3, r4⟩ := ioNodes_spec nt' _ og.nodes [] nodes' hio hz (by simp [NodesSorted])
             (hw2.wf.nodesSorted.imp (fun h => by omega)) (by simp) hw2.kinds
-          refine ⟨hids, hz, ⟨r1, ?_, ?_, by simp [LinksDistinct], by simp, by simp, by simp, r4⟩⟩
+          refine ⟨hids, hz, ⟨r1, ?_, ?_, by simp [LinksDistinct], by simp, by simp, by simp, r4, by simp⟩⟩
           · intro m hm
             rcases r3 m hm with h' | ⟨n, hn, e1, e2, _⟩
             · simp at h'
@@ -364,7 +402,7 @@ theorem isSensor_of_kind {n m : Node} (h : n.kind = m.kind) : n.isSensor = m.isS
 omit [Scalar W] in
 theorem child_wft (p1 p2 : Genome W) (nt : List (Trait W)) (acc : MateAcc W) (id : Int)
     (hinv : AccInv p1 p2 nt acc) (hs : GenesSorted acc.genes) (hne : acc.genes ≠ [])
-    (hw1 : WFT p1) (hw2 : WFT p2) (hl : SameLineage p1 p2) (hnt : nt.map (·.id) = p1.traits.map (·.id)) :
+    (hw1 : WFT p1) (hw2 : WFT p2) (hl : NodeLineage p1 p2) (hnt : nt.map (·.id) = p1.traits.map (·.id)) :
     WFT ({ id := id, traits := nt, nodes := acc.nodes, genes := acc.genes } : Genome W) ∧
     Retains p2 ({ id := id, traits := nt, nodes := acc.nodes, genes := acc.genes } : Genome W) ∧
     Retains p1 ({ id := id, traits := nt, nodes := acc.nodes, genes := acc.genes } : Genome W) := by
@@ -375,8 +413,8 @@ theorem child_wft (p1 p2 : Genome W) (nt : List (Trait W)) (acc : MateAcc W) (id
     intro a ha b hb e
     rcases ha with ha | ha <;> rcases hb with hb | hb
     · rw [node_unique p1.nodes hw1.wf.nodesSorted a b ha hb e]
-    · exact hl.2.1 a ha b hb e
-    · exact (hl.2.1 b hb a ha e.symm).symm
+    · exact hl.1 a ha b hb e
+    · exact (hl.1 b hb a ha e.symm).symm
     · rw [node_unique p2.nodes hw2.wf.nodesSorted a b ha hb e]
   refine ⟨⟨⟨hs, hinv.links, hinv.nodesSorted, hinv.endpoints, ⟨?_, ?_⟩, ?_, hne, ?_, ?_⟩, ?_, ?_⟩, hret2, ?_⟩
   · intro x hx; exact (traitRefOk_iff_refIn _ _).mpr (hinv.geneTraits x hx)
@@ -412,10 +450,12 @@ theorem child_wft (p1 p2 : Genome W) (nt : List (Trait W)) (acc : MateAcc W) (id
     -- p2 has a node of this id among its input/bias/output nodes
     have hmem : n.id ∈ (p1.nodes.filter (fun n => n.kind != Kind.hidden)).map (·.id) :=
       List.mem_map.mpr ⟨n, List.mem_filter.mpr ⟨hn, by simpa using hk⟩, rfl⟩
-    rw [hl.2.2.2] at hmem
+    have hio : ioIds p1 = ioIds p2 := hl.2.2
+    unfold ioIds at hio
+    rw [hio] at hmem
     obtain ⟨n', hn', e'⟩ := List.mem_map.mp hmem
     have hn2 := (List.mem_filter.mp hn').1
-    have ek : n.kind = n'.kind := hl.2.1 n hn n' hn2 e'.symm
+    have ek : n.kind = n'.kind := hl.1 n hn n' hn2 e'.symm
     obtain ⟨m, hm, e1, e2⟩ := hinv.io n' hn2 (by rw [← ek]; exact hk)
     exact ⟨m, hm, by rw [e1, e'], by rw [e2, ek]⟩
 
@@ -625,7 +665,7 @@ theorem multipointAvgWalk_inv (p1 p2 : Genome W) (nt : List (Trait W)) (t0 : Opt
   case case10 x xs y ys acc rs heq c rs1 havg acc1 hadd ih =>
     have hx := hm1 x (by simp)
     have hy := hm2 y (by simp)
-    have hleg := legit_avgChosen p1 p2 x y hx hy c rs rs1 havg
+    have hleg := legit_avgChosen p1 p2 x y hx hy heq c rs rs1 havg
     obtain ⟨w, n1, n2⟩ := walk_step p1 p2 nt t0 acc acc1 c false xs ys hz hwi.inv hwi.sorted hleg.1 hadd
       (fun a ha => by rw [hleg.2]; exact hwi.below1 a ha x (by simp))
       (fun z hz => by rw [hleg.2]; exact (sorted_cons hs1).2 z hz)
@@ -681,7 +721,8 @@ theorem multipointAvgWalk_inv (p1 p2 : Genome W) (nt : List (Trait W)) (t0 : Opt
 omit [Scalar W] in
 theorem Legit.symm {p1 p2 : Genome W} {c : Chosen W} (h : Legit p2 p1 c) : Legit p1 p2 c :=
   ⟨fun sn hs => ⟨(h.src sn hs).1, (h.src sn hs).2.symm⟩, fun dn hd => ⟨(h.dst dn hd).1, (h.dst dn hd).2.symm⟩,
-   by obtain ⟨y, hy, e⟩ := h.dstFrom; exact ⟨y, hy.symm, e⟩⟩
+   by obtain ⟨y, hy, e⟩ := h.dstFrom; exact ⟨y, hy.symm, e⟩,
+   by obtain ⟨y1, y2, y3, m1, m2, m3, r⟩ := h.prov; exact ⟨y1, y2, y3, m1.symm, m2.symm, m3.symm, r⟩⟩
 
 /-- **single-point walk** (`q1` = the parent with fewer genes, in either role): genes are still collected in
     ascending order — before the crossing point from `q1` (and the collected numbers stay below the rest of both lists),
@@ -709,12 +750,12 @@ theorem singlePointWalk_inv (p1 p2 q1 q2 : Genome W) (hq : (q1 = p1 ∧ q2 = p2)
     rcases hq with ⟨rfl, rfl⟩ | ⟨rfl, rfl⟩
     · exact legit_chooseFrom_right _ _ y hy
     · exact legit_chooseFrom_left _ _ y hy
-  have hLavg : ∀ x ∈ q1.genes, ∀ y ∈ q2.genes, ∀ c rs rs', avgChosen q1 q2 x y rs = .ok (c, rs') →
+  have hLavg : ∀ x ∈ q1.genes, ∀ y ∈ q2.genes, x.inn = y.inn → ∀ c rs rs', avgChosen q1 q2 x y rs = .ok (c, rs') →
       Legit p1 p2 c ∧ c.gene.inn = x.inn := by
-    intro x hx y hy c rs rs' hc
+    intro x hx y hy heq c rs rs' hc
     rcases hq with ⟨rfl, rfl⟩ | ⟨rfl, rfl⟩
-    · exact legit_avgChosen _ _ x y hx hy c rs rs' hc
-    · have := legit_avgChosen _ _ x y hx hy c rs rs' hc
+    · exact legit_avgChosen _ _ x y hx hy heq c rs rs' hc
+    · have := legit_avgChosen _ _ x y hx hy heq c rs rs' hc
       exact ⟨this.1.symm, this.2⟩
   fun_induction singlePointWalk q1 q2 nt t0 cp l1 l2 gc last acc rs
   case case1 =>
@@ -761,7 +802,7 @@ theorem singlePointWalk_inv (p1 p2 q1 q2 : Genome W) (hq : (q1 = p1 ∧ q2 = p2)
   case case8 => cases h
   case case9 => cases h
   case case10 x xs y ys gc last acc rs heq hgc1 hgc2 c rs1 havg acc1 hadd ih =>
-    have hleg := hLavg x (hm1 x (by simp)) y (hm2 y (by simp)) c rs rs1 havg
+    have hleg := hLavg x (hm1 x (by simp)) y (hm2 y (by simp)) heq c rs rs1 havg
     obtain ⟨w, n1, n2⟩ := walk_step p1 p2 nt t0 acc acc1 c false xs ys hz hinv hsorted hleg.1 hadd
       (fun a ha => by rw [hleg.2, heq]; exact hb2 a ha y (by simp))
       (fun z hz => by rw [hleg.2]; exact (sorted_cons hs1).2 z hz)
